@@ -111,6 +111,13 @@ FACTS = {
             (["paths", "/things", "get", "responses", "default", "content", "application/json", "schema", "items", "properties", "self", "format"], "uri-reference"),
         ],
     },
+    "same-parameter-name-at-path-and-operation-level": {
+        "files": {"main.oal": "res /items/{ 'id int }?{ 'page int } on get { 'page! str, 'limit int } : <headers={ 'id! str, 'trace str }> -> <{ 'name str }>;\n"},
+        "facts": [
+            (["paths", "/items/{id}", "parameters"], ("params", [("path", "id", True), ("query", "page", False)])),
+            (["paths", "/items/{id}", "get", "parameters"], ("params", [("query", "page", True), ("query", "limit", False), ("header", "id", True), ("header", "trace", False)])),
+        ],
+    },
     "annotations-in-place": {
         "files": {"main.oal":
                   "let n = int `minimum: 1, maximum: 9, example: 5`;\nlet s = str `pattern: \"[a-z]+\", minLength: 2, maxLength: 8, format: \"slug\", enum: [ab, cd]`;\n"
@@ -352,6 +359,13 @@ def check():
                 txt = ms.show(opv)
                 structural("relation_path_item (%s): the operation carries this transfer's parameters, request body and responses" % m,
                            all(("Builder::%s(self, " % fn) in txt and "as Some).0.1" in txt for fn in ("xfer_params", "xfer_request", "xfer_responses")))
+                # ... the parameters untouched: the field is the very list xfer_params answered (nothing filtered out of it,
+                # nothing merged into it - a parameter of the same name at path level is a different parameter)
+                ops = [x for x in ms.subterms(opv) if x[0] == "aggr" and str(x[1]).endswith("Operation") and x[3] and "parameters" in x[3]]
+                if ops:
+                    pv = ops[0][2][list(ops[0][3]).index("parameters")]
+                    structural("relation_path_item (%s): the operation's parameters are exactly what xfer_params answers for this transfer" % m,
+                               pv[0] == "app" and pv[1] == "Builder::xfer_params")
         structural("relation_path_item: every HTTP method of the language has its slot", seen == set(methods))
         mirlib.check_translator(o, ex, "relation_path_item")
         ex = mirlib.executor([MO])
